@@ -84,6 +84,8 @@ func main() {
 	c.cache["verif"] = *verif
 	fmt.Printf("loaded %d packages of module %q from %s (%.1fs)\n", len(c.Pkgs), Mod, *repo, time.Since(start).Seconds())
 	exit := 0
+	var c2 *Ctx
+	var err2 error
 	for _, id := range ids {
 		spec := props[id]
 		pstart := time.Now()
@@ -97,6 +99,26 @@ func main() {
 		}
 		for _, f := range rules {
 			runRule(f, c, r)
+		}
+		if *tier == "thorough" {
+			// second build configuration: the files behind `js && wasm` / `!cgo` tags (main_wasm.go,
+			// embedded_builtins_wasm.go, qbe_nocgo.go). Same rules, same obligation keys: an obligation that
+			// exists only there is added, one that fails in either configuration fails.
+			if c2 == nil {
+				c2, err2 = loadRepo(*repo, []string{"GOOS=js", "GOARCH=wasm", "CGO_ENABLED=0"})
+				if err2 == nil {
+					c2.Tier = *tier
+					c2.cache["verif"] = *verif
+				}
+			}
+			if err2 != nil {
+				r.Fail("engine", "load", "GOOS=js GOARCH=wasm configuration", "-", "the js/wasm build configuration does not load: "+err2.Error())
+			} else {
+				r.Note("thorough: rules also run on the GOOS=js GOARCH=wasm CGO_ENABLED=0 configuration (%d packages)", len(c2.Pkgs))
+				for _, f := range rules {
+					runRule(f, c2, r)
+				}
+			}
 		}
 		code := r.finish(*verif, known, pstart, append(append([]string{}, baseTrusted...), spec.Trusted...), spec.Assumptions, spec.Explanation)
 		if code > exit {
